@@ -88,12 +88,14 @@ def main():
 
 def do_replay(K, path):
     doc, out = K.replay_file(path)
-    clauses = [v[0] for v in out.violations]
+    clauses = [v[0] for v in out.violations] + [v[0] for v in out.known]
     print(f"replay {path}: clause expected={doc['clause']} got={clauses} digest expected={doc['digest']} got={out.digest()}")
     for line in out.log[-40:]:
         print('  ' + line)
     for v in out.violations:
         print(f"  VIOLATED {v[0]} step={v[1]}: {v[2]}")
+    for v in out.known:
+        print(f"  KNOWN-FINDING (tolerated) {v[0]}: {v[1]}")
     if doc['clause'] in clauses:
         print(f"VIOLATION property={doc['property']} replay={path}")
         return 1
@@ -187,7 +189,7 @@ def do_check(K, prop, seed, tier, args, repo):
             continue
         path = os.path.join(VERIF_DIR, k['replay'])
         doc, out = K.replay_file(path)
-        failing = k['clause'] in [v[0] for v in out.violations]
+        failing = k['clause'] in [v[0] for v in out.violations] + [v[0] for v in out.known]
         if k['status'] == 'known':
             if failing:
                 known_hits[k['id']] = k
